@@ -136,6 +136,15 @@ class Sort(Reordering):
                 done=False,
                 messages=(f"{current.operation} is order-dependent",),
             )
+        if isinstance(current.operation, Sort):
+            # Sorts are stable, so the later sort's terms take precedence over
+            # the earlier one's; swapping them would change the row order.
+            return UnaryCommutator(
+                first=None,
+                second=current.operation,
+                done=False,
+                messages=(f"{current.operation} is a sort, and sorts do not commute with each other",),
+            )
         return UnaryCommutator(self, current.operation)
 
     def simplify(self, upstream: UnaryOperation) -> UnaryOperation | None:
